@@ -2,6 +2,9 @@ use rand::Rng;
 use std::cmp::Ordering;
 use std::net::SocketAddr;
 use std::time::Duration;
+#[cfg(resolved_verif)]
+use crate::verif::net::{TcpStream, UdpSocket};
+#[cfg(not(resolved_verif))]
 use tokio::net::{TcpStream, UdpSocket};
 use tokio::time::timeout;
 
